@@ -93,7 +93,8 @@ mod verif_cursor {
     fn cursor_multiline_pos() {
         let reverse_col: u16 = kani::any();
         let newlines_after_cursor: u16 = kani::any();
-        run(TokPos::MultilineContent { reverse_col, newlines_after_cursor }, " {\n}", 1, MLC, Some(1), false, (1, 0, 0, 1));
+        kani::assume(newlines_after_cursor <= 3);
+        run(TokPos::MultilineContent { reverse_col, newlines_after_cursor }, " {\n}", 1, MLC, Some(1), false, (1, 0, 0, 0));
     }
 
     #[kani::proof]
@@ -101,6 +102,7 @@ mod verif_cursor {
     fn cursor_multiline_pos_ignored() {
         let reverse_col: u16 = kani::any();
         let newlines_after_cursor: u16 = kani::any();
+        kani::assume(newlines_after_cursor <= 3);
         run(TokPos::MultilineContent { reverse_col, newlines_after_cursor }, " {\n}", 1, MLC, Some(1), true, (0, 0, 0, 0));
     }
 
@@ -134,6 +136,6 @@ mod verif_cursor {
         // cursor in the blanks before the end-of-file token
         let col: u16 = kani::any();
         let newlines_after_cursor: u16 = kani::any();
-        run(TokPos::Whitespace { col, newlines_after_cursor }, " b", 1, TokenType::Identifier, Some(2), false, (0, 0, 0, 1));
+        run(TokPos::Whitespace { col, newlines_after_cursor }, " b", 1, TokenType::Identifier, Some(2), false, (1, 0, 0, 1));
     }
 }
